@@ -338,7 +338,7 @@ Record sthread := mkST { st_pc : spc; st_prog : list semop }.
 Inductive sevent :=
 | SEInc (t : nat)              (* sem->value++ *)
 | SEDec (t : nat)              (* sem->value-- (a pass) *)
-| SERet (t : nat) (code : Z).  (* the operation returned (0, or UV_EAGAIN from trywait) *)
+| SERet (t : nat) (op : semop) (code : Z).  (* op returned code (0, or UV_EAGAIN from trywait) *)
 
 Record sstate := mkS {
   s_value : Z;
@@ -362,8 +362,8 @@ Definition sset_value (s : sstate) (v : Z) : sstate :=
   mkS v (s_owner s) (s_ths s) (s_trace s).
 
 (* the operation at the head of the program finished with [code] *)
-Definition sfinish (s : sstate) (t : nat) (code : Z) : sstate :=
-  let s1 := semit s (SERet t code) in
+Definition sfinish (s : sstate) (t : nat) (op : semop) (code : Z) : sstate :=
+  let s1 := semit s (SERet t op code) in
   mkS (s_value s1) (s_owner s1)
       (upd t (fun th => let p := tl (st_prog th) in
                         mkST (match p with [] => SDone | _ => SIdle end) p) (s_ths s1))
@@ -419,16 +419,16 @@ Definition sstep (s : sstate) (c : choice) : option (sstate * sop) :=
               if s_value s1 =? 0 then Some (sset_pc s1 t (STUnl false), OpTry)
               else Some (sset_pc (semit (sset_value s1 (wrap32 (s_value s1 - 1))) (SEDec t))
                                  t (STUnl true), OpTry)
-            else Some (sfinish s t UV_EAGAIN, OpTry)
+            else Some (sfinish s t STry UV_EAGAIN, OpTry)
         end
     | SPSig => Some (sset_pc (ssignal s (aux c)) t SPUnl, OpSignal)
-    | SPUnl => Some (sfinish (sset_owner s None) t 0, OpUnlock)
+    | SPUnl => Some (sfinish (sset_owner s None) t SPost 0, OpUnlock)
     | SWe => Some (sset_pc (sset_owner s None) t (SWw false), OpWait)
     | SWw sg =>
         if (sg || (aux c =? 1)%nat) && is_free (s_owner s)
         then Some (sgate (sset_owner s (Some t)) t, OpWake) else None
-    | SWUnl => Some (sfinish (sset_owner s None) t 0, OpUnlock)
-    | STUnl ok => Some (sfinish (sset_owner s None) t (if ok then 0 else UV_EAGAIN), OpUnlock)
+    | SWUnl => Some (sfinish (sset_owner s None) t SWait 0, OpUnlock)
+    | STUnl ok => Some (sfinish (sset_owner s None) t STry (if ok then 0 else UV_EAGAIN), OpUnlock)
     | SDone => None
     end
   end.
@@ -439,7 +439,7 @@ Definition srun (s : sstate) (sched : list choice) : sstate := fold_left sstep_s
 
 Definition sret_of (s s' : sstate) : option Z :=
   match s_trace s' with
-  | SERet _ code :: _ => if (length (s_trace s') =? length (s_trace s))%nat then None else Some code
+  | SERet _ _ code :: _ => if (length (s_trace s') =? length (s_trace s))%nat then None else Some code
   | _ => None
   end.
 Fixpoint srun_log (s : sstate) (sched : list choice)
